@@ -135,6 +135,9 @@ def handle : List String → String
     | some hay, some needle =>
       let si := goIndex hay needle
       if si != stringsIndex hay needle then "model-contract-disagree"
+      -- the amd64 text of stringslite.Index (both values of MaxLen) around a routine with IndexString's contract
+      else if goIndexAmd64 63 stringsIndex hay needle != si || goIndexAmd64 31 stringsIndex hay needle != si then
+        "model-amd64-disagree"
       else
         let ib : Int := match needle with | [] => -1 | c :: _ => goIndexByte hay c
         let low := lowerASCII needle
